@@ -144,6 +144,46 @@ def check_case(rec, case):
         rec.inconc('cannot build NFA: %r' % (o.exc,))
         return
     N = o.value
+    if kind == 'nfa_mutate':
+        import random as _r
+        mr = _r.Random(case['mseed'])
+        eps = case['eps']
+        for step in range(4):
+            for w in words:
+                o = call(na.nfa_accepts_word, N, w)        # judged by the contract against the CURRENT content of N
+                if not o.ok:
+                    report_failure(rec, o, 'nfa_accepts_word', word=w, step=step)
+                    return
+            for q in sorted(N.Q):
+                call(na.epsilon_closure, N, q)
+            # change the object in place: add / remove a move, an epsilon move, a state, toggle acceptance
+            Q = sorted(N.Q)
+            k = mr.randrange(5)
+            p_, q_ = mr.choice(Q), mr.choice(Q)
+            if k == 0:
+                key = (p_, mr.choice(sorted(N.Sigma)))
+                if key not in N.delta:
+                    N.delta[key] = set()
+                N.delta[key].add(q_)
+            elif k == 1:
+                key = (p_, eps)
+                if key not in N.delta:
+                    N.delta[key] = set()
+                N.delta[key].add(q_)
+            elif k == 2:
+                keys = [k_ for k_ in N.delta if N.delta[k_]]
+                if keys:
+                    k_ = mr.choice(sorted(keys))
+                    N.delta[k_].discard(mr.choice(sorted(N.delta[k_])))
+            elif k == 3:
+                N.Q.add('new%d' % step)
+                if (p_, eps) not in N.delta:
+                    N.delta[(p_, eps)] = set()
+                N.delta[(p_, eps)].add('new%d' % step)
+                N.F.add('new%d' % step)
+            else:
+                N.F ^= {q_}
+        return
     for w in words:
         o = call(na.nfa_accepts_word, N, w)
         if not o.ok:
@@ -194,6 +234,19 @@ def gen_cases(rec, rng, tier):
                 yield {'kind': 'nfa', 'cls': cls + '/' + cont, 'ref': R, 'n': 4, 'eps': eps, 'container': cont, 'sets': _sets(rng, R)}
     for (cls, R) in fag.hostile_dfas(rng):
         yield {'kind': 'dfa', 'cls': 'dfa_' + cls, 'ref': R, 'n': 5}
+    # long epsilon runs (closures that need many steps) and Thompson-style automata
+    for k in (5, 6, 7, 9, 10, 12, 15, 17, 20, 33):
+        if (k + rec.shard) % 2 == 0:
+            for back in (False, True):
+                yield {'kind': 'nfa', 'cls': 'eps_chain', 'ref': fag.eps_chain(k, back_edge=back, accept_end=(k % 3 != 0)), 'n': 3, 'eps': rng.choice(['', 'ε']),
+                       'container': rng.choice(conts), 'sets': [['c00'], ['c%02d' % (k // 2)]]}
+    for R in fag.thompson_nfas(rng, 40 if thorough else 10):
+        yield {'kind': 'nfa', 'cls': 'thompson_nfa', 'ref': R, 'n': 4, 'eps': rng.choice(['', '_']), 'container': rng.choice(conts), 'sets': _sets(rng, R)}
+    # the same OBJECT queried, changed in place, and queried again (a stale per-object cache would answer for the old automaton)
+    for _ in range(120 if thorough else 30):
+        n = rng.randint(2, 5)
+        R = fag.random_nfa(rng, n, 2, eps_density=rng.choice([0.2, 0.6]))
+        yield {'kind': 'nfa_mutate', 'cls': 'requery_after_in_place_change', 'ref': R, 'n': 3, 'eps': rng.choice(['', '_']), 'container': rng.choice(conts), 'mseed': rng.randrange(10 ** 9)}
     # 3. seeded random
     for _ in range(600 if thorough else 150):
         n = rng.randint(1, 7 if thorough else 6)
